@@ -9,7 +9,7 @@ use crate::refimpl::varint as rv;
 use crate::report::Report;
 use crate::sim::apps::{ConnErr, Err as AErr, Msg, Out, Probe};
 use crate::sim::rawpeer as raw;
-use crate::sim::sched::{RunEnd, Sched};
+use crate::sim::sched::{RunEnd, Sched, ScriptStep};
 use crate::sim::{self, lock, NetCfg, SimConn, CLIENT, SERVER};
 use crate::util::{hash64, hex_short, Rng};
 use crate::{Gen, PropDef, Tier};
@@ -391,7 +391,7 @@ fn walk_control_after_goaway(frames: &[CTok], h3_is_client: bool) -> (Vec<u64>, 
     (vec![], false, true, false)
 }
 
-pub fn expected(script: &[UStream], h3_is_client: bool, reset_after: &[usize]) -> Expect {
+pub fn expected(script: &[UStream], h3_is_client: bool, reset_after: &[usize], held_request: bool) -> Expect {
     let mut errors: Vec<u64> = Vec::new();
     let mut dont_care = false;
     let mut goaway = false;
@@ -409,7 +409,11 @@ pub fn expected(script: &[UStream], h3_is_client: bool, reset_after: &[usize]) -
         if u.kind != UKind::Control {
             continue;
         }
-        let o = control_stream_outcome(u, h3_is_client, reset_after[i]);
+        let mut o = control_stream_outcome(u, h3_is_client, reset_after[i]);
+        if held_request && !h3_is_client {
+            // accept() cannot have ended: nothing on the control stream may be left unprocessed
+            o.none_ok = false;
+        }
         dont_care |= o.dont_care;
         goaway |= o.goaway_seen;
         none_ok |= o.none_ok;
@@ -432,7 +436,7 @@ pub fn expected(script: &[UStream], h3_is_client: bool, reset_after: &[usize]) -
     }
     let n_ctl = count(UKind::Control);
     Expect {
-        goaway_effect: if errors.is_empty() && !dont_care && n_ctl == 1 { Some(goaway) } else { None },
+        goaway_effect: if errors.is_empty() && !dont_care && n_ctl == 1 && !(held_request && !h3_is_client) { Some(goaway) } else { None },
         errors,
         none_ok,
         dont_care,
@@ -454,6 +458,9 @@ pub struct Mode {
     pub backpressure: bool,
     pub stall_grease_stream: bool,
     pub grease: bool,
+    /// server role: a request was accepted before the script starts and is never answered, so
+    /// accept() cannot end and the control stream has to be processed to its last frame
+    pub held_request: bool,
 }
 
 pub struct Obs {
@@ -525,6 +532,7 @@ pub fn run_script(script: &[UStream], h3_is_client: bool, mode: &Mode, seed: u64
     let probe = Probe::new(&net);
     let mut sched = Sched::new(net.clone(), rng.next());
     // one script per stream so that streams interleave freely
+    let mut uni_scripts: Vec<Vec<ScriptStep>> = Vec::new();
     for (si, (u, id)) in script.iter().zip(ids.iter()).enumerate() {
         let b = ustream_bytes(u);
         let mut steps = Vec::new();
@@ -553,7 +561,19 @@ pub fn run_script(script: &[UStream], h3_is_client: bool, mode: &Mode, seed: u64
                 ));
             }
         }
-        sched.add_script(steps);
+        uni_scripts.push(steps);
+    }
+    let held = mode.held_request && !h3_is_client;
+    if held {
+        // phase 0: one complete request, accepted and parked by the application
+        let rid = lock(&net).raw_open(raw_side, true);
+        let mut w = raw::headers_frame(&raw::simple_request_headers());
+        w.extend(raw::data_frame(b"held"));
+        sched.add_script(vec![raw::step_write(raw_side, rid, w), raw::step_fin(raw_side, rid)]);
+    } else {
+        for st in uni_scripts.drain(..) {
+            sched.add_script(st);
+        }
     }
     let p = probe.clone();
     let net2 = net.clone();
@@ -613,6 +633,12 @@ pub fn run_script(script: &[UStream], h3_is_client: bool, mode: &Mode, seed: u64
         });
     }
     let mut end = sched.run(300_000);
+    if held && end == RunEnd::Quiescent {
+        for st in uni_scripts.drain(..) {
+            sched.add_script(st);
+        }
+        end = sched.run(300_000);
+    }
     if end == RunEnd::Quiescent && h3_is_client {
         probe.gate_open();
         end = sched.run(300_000);
@@ -672,7 +698,10 @@ pub fn check_script(script: &[UStream], h3_is_client: bool, mode: &Mode, seed: u
     }
     let case = describe(script, h3_is_client, mode);
     let (reset_frames, _) = reset_points(script, seed);
-    let ex = expected(script, h3_is_client, &reset_frames);
+    let ex = expected(script, h3_is_client, &reset_frames, mode.held_request);
+    if mode.held_request && !h3_is_client {
+        rep.count("scripts_with_a_request_in_progress");
+    }
     let o = run_script(script, h3_is_client, mode, seed);
     rep.sig(hash64(&(script, h3_is_client, format!("{:?}", mode), o.sig)));
     rep.sig_in("interleaving_signatures", o.sig);
@@ -794,7 +823,7 @@ fn run_case(gen: &str, index: u64, seed: u64, _tier: Tier, rep: &mut Report) {
     let mut rng = Rng::new(seed);
     // which unassigned frame types stand for "unknown" in this case
     rf::set_unknown_salt(seed);
-    let plain = Mode { credit: CreditMode::Unlimited, backpressure: false, stall_grease_stream: false, grease: true };
+    let plain = Mode { credit: CreditMode::Unlimited, backpressure: false, stall_grease_stream: false, grease: true, held_request: false };
     match gen {
         "single_control_sequences" => {
             let h3_is_client = index % 2 == 0;
@@ -802,12 +831,15 @@ fn run_case(gen: &str, index: u64, seed: u64, _tier: Tier, rep: &mut Report) {
             for end in [UEnd::Open, UEnd::Fin, UEnd::Reset(0x10c), UEnd::FinInsideFrame((index % 5) as u8)] {
                 let s = vec![UStream { kind: UKind::Control, type_form: *rng.pick(&[1usize, 2, 4, 8]), id_form: 1, frames: frames.clone(), end }];
                 check_script(&s, h3_is_client, &plain, rng.next(), rep);
+                if !h3_is_client {
+                    check_script(&s, h3_is_client, &Mode { held_request: true, ..plain.clone() }, rng.next(), rep);
+                }
             }
         }
         "multi_stream_scripts" => {
             let n = 1 + rng.usize(4);
             let s: Vec<UStream> = (0..n).map(|_| gen_stream(&mut rng)).collect();
-            let mode = Mode { credit: *rng.pick(&[CreditMode::Unlimited, CreditMode::Exactly3, CreditMode::Late]), backpressure: rng.bool(), stall_grease_stream: rng.chance(1, 6), grease: rng.chance(3, 4) };
+            let mode = Mode { credit: *rng.pick(&[CreditMode::Unlimited, CreditMode::Exactly3, CreditMode::Late]), backpressure: rng.bool(), stall_grease_stream: rng.chance(1, 6), grease: rng.chance(3, 4), held_request: rng.chance(1, 3) };
             check_script(&s, rng.bool(), &mode, rng.next(), rep);
         }
         "goaway_effect_traces" => {
@@ -823,7 +855,7 @@ fn run_case(gen: &str, index: u64, seed: u64, _tier: Tier, rep: &mut Report) {
                 frames.push(CTok::Goaway(*rng.pick(pool)));
             }
             let s = vec![UStream { kind: UKind::Control, type_form: 1, id_form: 1, frames, end: UEnd::Open }];
-            let mode = Mode { credit: *rng.pick(&[CreditMode::Unlimited, CreditMode::Exactly3, CreditMode::Late]), backpressure: rng.bool(), stall_grease_stream: rng.chance(1, 4), grease: true };
+            let mode = Mode { credit: *rng.pick(&[CreditMode::Unlimited, CreditMode::Exactly3, CreditMode::Late]), backpressure: rng.bool(), stall_grease_stream: rng.chance(1, 4), grease: true, held_request: false };
             check_script(&s, h3_is_client, &mode, rng.next(), rep);
         }
         "credit_and_backpressure" => {
@@ -843,7 +875,7 @@ fn run_case(gen: &str, index: u64, seed: u64, _tier: Tier, rep: &mut Report) {
             if rng.bool() {
                 s.push(UStream { kind: *rng.pick(&[UKind::Encoder, UKind::Decoder, UKind::Grease, UKind::Unknown, UKind::WtUni]), type_form: *rng.pick(&[1usize, 2, 4, 8]), id_form: *rng.pick(&[1usize, 2, 4, 8]), frames: vec![], end: UEnd::Open });
             }
-            let mode = Mode { credit: *rng.pick(&[CreditMode::Exactly3, CreditMode::Late, CreditMode::Unlimited]), backpressure: rng.bool(), stall_grease_stream: rng.chance(1, 3), grease: true };
+            let mode = Mode { credit: *rng.pick(&[CreditMode::Exactly3, CreditMode::Late, CreditMode::Unlimited]), backpressure: rng.bool(), stall_grease_stream: rng.chance(1, 3), grease: true, held_request: false };
             check_script(&s, h3_is_client, &mode, rng.next(), rep);
         }
         _ => {}
